@@ -957,6 +957,26 @@ impl<'a, 'b> FnCtx<'a, 'b> {
                 }
                 _ => self.emit(I::Nop),
             }
+        } else if choice < 91 && self.c.cfg.multi_value && rng.chance(1, 4) && self.c.types.contains(&(vec![VT::F64, VT::I64], vec![VT::F64, VT::I64])) {
+            // an *empty* construct whose block type is a type-section entry nothing else may use:
+            // `block (param f64 i64) (result f64 i64) end`, or a loop, or an if with both arms empty
+            let bt = self.block_type_for(&[VT::F64, VT::I64], &[VT::F64, VT::I64]).unwrap();
+            self.expr(rng, VT::F64, d);
+            self.expr(rng, VT::I64, d);
+            match rng.below(3) {
+                0 => self.emit(I::Block(bt)),
+                1 => self.emit(I::Loop(bt)),
+                _ => {
+                    self.expr(rng, VT::I32, d);
+                    self.emit(I::If(bt));
+                    if rng.chance(1, 2) {
+                        self.emit(I::Else);
+                    }
+                }
+            }
+            self.emit(I::End);
+            self.emit(I::Drop);
+            self.emit(I::Drop);
         } else if choice < 91 && self.c.cfg.multi_value && rng.chance(1, 2) {
             // a construct that takes parameters and leaves nothing: block, loop or if of a type
             // (t…) -> ()
@@ -1088,7 +1108,7 @@ pub struct Generated {
 
 fn const_expr_for(rng: &mut Rng, ty: VT, imported_globals: &[(u32, VT)], declared: &[u32], allow_global_get: bool) -> ConstExpr {
     let gs: Vec<u32> = imported_globals.iter().filter(|(_, t)| *t == ty).map(|p| p.0).collect();
-    if allow_global_get && !gs.is_empty() && rng.chance(1, 3) {
+    if allow_global_get && !gs.is_empty() && (rng.chance(1, 3) || (ty == VT::I64 && rng.chance(1, 3))) {
         return ConstExpr::global_get(*rng.pick(&gs));
     }
     match ty {
@@ -1137,6 +1157,10 @@ pub fn gen_module(rng: &mut Rng, cfg: &GenCfg) -> Generated {
     }
     if cfg.multi_value {
         types.push((vec![VT::I32], vec![VT::I32]));
+        // an identity signature that only empty constructs use (see `stmt`)
+        if rng.chance(1, 2) {
+            types.push((vec![VT::F64, VT::I64], vec![VT::F64, VT::I64]));
+        }
         // signatures for constructs that take parameters and leave nothing
         types.push((vec![*rng.pick(&[VT::I32, VT::I64, VT::F64])], vec![]));
         if rng.chance(1, 2) {
@@ -1202,6 +1226,14 @@ pub fn gen_module(rng: &mut Rng, cfg: &GenCfg) -> Generated {
                 globals.push(GlobalInfo { ty, mutable, imported: true });
             }
         }
+        n_import_entries += 1;
+    }
+    // an immutable i64 global to base 64-bit segment offsets on (`global.get` offsets of segments of
+    // 64-bit tables and memories)
+    if cfg.memory64 && rng.chance(1, 2) {
+        imports.import("env", "base64", EntityType::Global(GlobalType { val_type: VT::I64.enc(), mutable: false, shared: false }));
+        imported_globals.push((globals.len() as u32, VT::I64));
+        globals.push(GlobalInfo { ty: VT::I64, mutable: false, imported: true });
         n_import_entries += 1;
     }
     let want_extern_elem = cfg.ref_types && cfg.extern_elem_global && rng.chance(1, 3);
@@ -1441,7 +1473,13 @@ pub fn gen_module(rng: &mut Rng, cfg: &GenCfg) -> Generated {
                 if off_ty == VT::I64 { ConstExpr::i64_const(o as i64) } else { ConstExpr::i32_const(o as i32) }
             } else {
                 match off_ty {
-                    VT::I64 => ConstExpr::i64_const(rng.below(70000) as i64),
+                    VT::I64 => {
+                        if rng.chance(1, 2) {
+                            const_expr_for(rng, VT::I64, &imported_globals, &[], true)
+                        } else {
+                            ConstExpr::i64_const(rng.below(70000) as i64)
+                        }
+                    }
                     _ => const_expr_for(rng, VT::I32, &imported_globals, &[], true),
                 }
             };
